@@ -1,6 +1,7 @@
 package sym
 
 import (
+	"go/token"
 	"fmt"
 	"sync"
 	"go/types"
@@ -199,6 +200,9 @@ func (e *Engine) builtin(st *State, th *Thread, fr *Frame, b *ssa.Builtin, args 
 		case MapV:
 			if a.Obj == 0 {
 				return tb.Int64(0)
+			}
+			if e.Cfg.Race && st.Multi {
+				e.hbAccess(st, th, st.obj(a.Obj), Ptr{Obj: a.Obj}, false, token.NoPos) // len(m) reads the map
 			}
 			return tb.Int64(int64(len(st.obj(a.Obj).Keys)))
 		case ChanV:
